@@ -51,6 +51,11 @@ type callSpec struct {
 	// Fetch requests number From..To-1 (per partition, per call) are answered with ErrBrokerNotAvailable for that partition:
 	// a partition-level error the consumer reports to the user (child.sendError) before it re-dispatches
 	FetchErrs []faultSpec `json:"fetch_errs,omitempty"`
+	// refused commits are answered with RebalanceInProgress, which the offset manager reports (pom.handleError), instead of
+	// OffsetsLoadInProgress, which it does not
+	Reported bool `json:"reported,omitempty"`
+	// a handler that has marked something calls sess.Commit() once it has received all its records; that commit is refused
+	MidCommit bool `json:"mid_commit,omitempty"`
 	Plan      []int64   `json:"plan"` // default plan handed out by a sync that is not scripted
 	SetupOK   bool      `json:"setup_ok"`
 	CleanupOK bool      `json:"cleanup_ok"`
@@ -167,6 +172,7 @@ const (
 	codeFatal    = 26
 	codeFetchErr = 29
 	codeCommit   = 14
+	codeCommitReported = 27 // RebalanceInProgress on a commit block: pom.handleError + releaseCoordinator
 	codeFetchReq = 8 // ErrBrokerNotAvailable on a fetch: reported through child.sendError, then re-dispatched
 )
 
@@ -223,6 +229,7 @@ type engine struct {
 	setupDone  bool
 	listN      map[int64]int
 	fetchN     map[int64]int
+	midN       int // handlers currently inside sess.Commit()
 	started    map[int64]bool
 	steady     map[int64]bool
 	expect     map[int64]bool
@@ -414,6 +421,15 @@ func (e *engine) install(brokers []*sarama.MockBroker) {
 	c.OnCommit = func(member string, gen int32, bs []sarama.VerifC07Block) int16 {
 		e.mu.Lock()
 		defer e.mu.Unlock()
+		if e.midN > 0 { // Commit() called by a handler during the session: always refused, reported
+			x := ev{K: "midcommit", M: memberNum(member), G: int64(gen)}
+			for _, b := range bs {
+				x.B = append(x.B, [2]int64{partID(b.Topic, b.Partition), b.Offset})
+				e.add(ev{K: "pomerr", P: partID(b.Topic, b.Partition), Flag: true})
+			}
+			e.add(x)
+			return codeCommitReported
+		}
 		ok := true
 		if len(e.commits) > 0 {
 			ok, e.commits = e.commits[0], e.commits[1:]
@@ -425,6 +441,12 @@ func (e *engine) install(brokers []*sarama.MockBroker) {
 		}
 		e.add(x)
 		if !ok {
+			if e.call != nil && e.call.Reported {
+				for _, b := range bs {
+					e.add(ev{K: "pomerr", P: partID(b.Topic, b.Partition)})
+				}
+				return codeCommitReported
+			}
 			return codeCommit
 		}
 		for _, b := range bs {
@@ -622,6 +644,15 @@ func (h hnd) ConsumeClaim(s sarama.ConsumerGroupSession, c sarama.ConsumerGroupC
 		}
 		consumed++
 		if consumed == target {
+			if h.call.MidCommit && b.Mark > 0 {
+				e.mu.Lock()
+				e.midN++
+				e.mu.Unlock()
+				s.Commit()
+				e.mu.Lock()
+				e.midN--
+				e.mu.Unlock()
+			}
 			e.mu.Lock()
 			e.steady[id] = true
 			e.checkBarriers()
@@ -760,6 +791,10 @@ func runCase(cs caseSpec) obs {
 						e.mu.Lock()
 						e.add(ev{K: "err", P: partID(ce.Topic, ce.Partition)})
 						e.mu.Unlock()
+					} else if ok && int(k) == codeCommitReported {
+						e.mu.Lock()
+						e.add(ev{K: "perr", P: partID(ce.Topic, ce.Partition)})
+						e.mu.Unlock()
 					}
 				}
 			}
@@ -874,6 +909,31 @@ func runCase(cs caseSpec) obs {
 	e.call = nil
 	e.co = &callObs{}
 	e.mu.Unlock()
+	if cs.ReadErrors && !sarama.VerifC07GroupClosed(g) {
+		// errors travel forwarder -> handleError -> Errors() asynchronously, and handleError drops them once Close has been
+		// called: give the last ones a moment to arrive before closing the group
+		for i := 0; i < 200; i++ {
+			e.mu.Lock()
+			var fs, fr, ps, pr int
+			for _, x := range e.log {
+				switch x.K {
+				case "fetcherr":
+					fs++
+				case "err":
+					fr++
+				case "pomerr":
+					ps++
+				case "perr":
+					pr++
+				}
+			}
+			e.mu.Unlock()
+			if (fs == 0 || fr > 0) && (ps == 0 || pr > 0) {
+				break
+			}
+			time.Sleep(time.Millisecond)
+		}
+	}
 	if cs.Close {
 		e.closeGroupAsync()
 	}
